@@ -102,6 +102,8 @@ def decode_op(weights):
             return [name, d[0]]
         if name == 'arm':
             return ['arm', d[0], d[1] % 4, d[2], d[3]]      # action 3: the callback raises
+        if name == 'revive':
+            return ['revive', d[0], d[1]]
         return [name]
     return dec, len(table)
 
@@ -276,6 +278,7 @@ class Run:
         self.busy = []
         was_enabled = self.enabled
         getattr(self, 'op_' + name)(*op[1:])
+        self.followup_process = False
         for post in self._post:
             self.apply_post(post)
         self._post = []
@@ -286,6 +289,13 @@ class Run:
                 self.check_split(self.log[start:self._disabled_at], self.log[self._disabled_at:], name)
             else:
                 self.check_segment(self.log[start:], name)
+        if self.followup_process:
+            # C05: an entity deferred-deleted itself from a callback while an operation was removing it altogether;
+            # the very next frame shows whether a mark was left behind
+            self.followup_process = False
+            self._owed = []
+            self.flags['followup_frame'] += 1
+            self.op_process()
 
     def noop(self, why=None):
         self.noops += 1
@@ -384,6 +394,15 @@ class Run:
         if self.maps(comp, 'on_add'):
             group.append(('on_add', comp, e))
         self.owe(group)
+
+    def op_revive(self, sel, cix):
+        """give a component to an id that was used before and is free now (owns nothing, no deletion pending in the
+        model): the entity exists again at once - a mark left behind by an earlier operation would hide it."""
+        cands = [k for k in self.known_ids if not self.owns(k) and not self.is_marked(k)]
+        if not cands:
+            return self.noop()
+        self.flags['revive_free_id'] += 1
+        self._do_add(cands[sel % len(cands)], self.new_comp(cix))
 
     def op_remove(self, ent_ix, cix):
         e = self.target(ent_ix)
@@ -673,9 +692,15 @@ class Run:
                 self.pending.append(e)
                 self.flags['own_entity_marked_from_callback'] += 1
             elif not self.owns(e):
-                # the operation removed the entity altogether: the mark must have gone with it (the next
-                # process() / a re-use of the id show whether it did)
+                # the operation removed the entity altogether: the mark must have gone with it - the id is
+                # given a component again right away (a mark left behind would hide the new entity; the next
+                # process() shows the rest)
                 self.flags['own_entity_marked_then_gone'] += 1
+                if not self.is_marked(e) and self.enabled and not self.nesting and 'queries' in self.checks:
+                    self.flags['revive_free_id'] += 1
+                    self._do_add(e, self.new_comp(len(self.comps)))
+                elif 'deletion' in self.checks and not self.nesting:
+                    self.followup_process = True
             return
         _k, e, comp, got = post
         row = self.attached.get(e, {})
